@@ -56,6 +56,9 @@ class Engine(InterpMixin, AttrMixin):
         from . import npmodel
 
         npmodel.install(self)
+        from . import scipymodel
+
+        scipymodel.install(self)
         from . import stdlib_model
 
         stdlib_model.install(self)
